@@ -168,7 +168,7 @@ func vfC13_Relay() {
 
 	if route == 1 {
 		vfAssert(d.dials == 0, "a rejected request is not dialed")
-		vfAssert(pend.aborts == 1 && pend.proceeds == 0 && pend.abortRes.Code == conn.DialResultCodeEACCES, "router rejection is reported with the permission-denied reply")
+		vfAssert(pend.aborts == 1 && pend.proceeds == 0 && pend.abortRes.Code != conn.DialResultCodeSuccess, "router rejection is reported with a failure reply")
 		vfReach("rejected")
 		return
 	}
